@@ -50,6 +50,8 @@ type ecJob struct {
 	Burst      []ecBurstCfg  `json:"burst"`
 	Writers    []ecWrSched   `json:"writers"`
 	WStates    [][]int       `json:"wstates"`
+	Dispatch   []ecDispSched `json:"dispatch"`
+	DStates    [][]int       `json:"dstates"`
 	Probes     []string      `json:"probes"`
 	TraceFile  string        `json:"trace_file"`
 	StopAtViol bool          `json:"stop_at_violation"`
@@ -97,6 +99,14 @@ type ecResult struct {
 	WrReplayed    int               `json:"wr_replayed"`
 	WrConforming  int               `json:"wr_conforming"`
 	WrSteps       int               `json:"wr_steps"`
+	DispReplayed  int               `json:"disp_replayed"`
+	DispConform   int               `json:"disp_conforming"`
+	DispSteps     int               `json:"disp_steps"`
+	DispRounds    int               `json:"disp_epoll_rounds"`
+	DispInOut     int               `json:"disp_in_out_events_while_writer_parked"`
+	DispRdhupIn   int               `json:"disp_rdhup_in_events"`
+	DispLost      int               `json:"disp_bytes_not_offered_at_close"`
+	DispWakes     int               `json:"disp_writer_wakeups"`
 	Probes        map[string]string `json:"probes"`
 	Samples       []string          `json:"samples"`
 	Notes         []string          `json:"notes"`
@@ -251,8 +261,10 @@ func (r *ecWinRun) compare(st []int, when string) {
 	}
 }
 
-func (r *ecWinRun) onRemoteClose() { r.fail("remote-close", "onRemoteClose called although the peer is open") }
-func (r *ecWinRun) onLocalClose()  {}
+func (r *ecWinRun) onRemoteClose() {
+	r.fail("remote-close", "onRemoteClose called although the peer is open")
+}
+func (r *ecWinRun) onLocalClose() {}
 
 func (r *ecWinRun) onEventData(buf []byte, conn eventConn) error {
 	r.res.WinCallbacks++
@@ -484,25 +496,26 @@ type ecPipeScen struct {
 }
 
 type ecPipeRun struct {
-	sc       *ecPipeScen
-	res      *ecResult
-	w, r     *connEventHandler
-	wfd, rfd int
-	sent     []byte // every byte handed to write/writev so far, in call order
-	consumed int
-	shown    int
-	cons     []int
-	consPos  int
-	drain    bool
-	viol     *ecViolation
-	th       *vsThread
-	thErr    error
-	thBusy   bool
-	blocked  bool
-	pending  [][]int
-	pattern  []string
-	trace    []string
-	werr     []string
+	sc        *ecPipeScen
+	res       *ecResult
+	w, r      *connEventHandler
+	wfd, rfd  int
+	sent      []byte // every byte handed to write/writev so far, in call order
+	consumed  int
+	shown     int
+	cons      []int
+	consPos   int
+	drain     bool
+	viol      *ecViolation
+	th        *vsThread
+	thErr     error
+	thBusy    bool
+	blocked   bool
+	pending   [][]int
+	pattern   []string
+	trace     []string
+	werr      []string
+	tokBefore int
 }
 
 func (p *ecPipeRun) fail(kind, detail string) {
@@ -512,8 +525,10 @@ func (p *ecPipeRun) fail(kind, detail string) {
 	}
 }
 
-func (p *ecPipeRun) onRemoteClose() { p.fail("remote-close", "onRemoteClose although the peer is open") }
-func (p *ecPipeRun) onLocalClose()  {}
+func (p *ecPipeRun) onRemoteClose() {
+	p.fail("remote-close", "onRemoteClose although the peer is open")
+}
+func (p *ecPipeRun) onLocalClose() {}
 func (p *ecPipeRun) onEventData(buf []byte, conn eventConn) error {
 	end := p.consumed + len(buf)
 	if end > len(p.sent) || !bytes.Equal(buf, p.sent[p.consumed:end]) {
@@ -547,6 +562,7 @@ func (p *ecPipeRun) step() {
 	t := p.th
 	before := ecInq(p.rfd)
 	first := t.pos == ""
+	p.tokBefore = len(p.w.onWriteReadyCh)
 	vsCur = t
 	t.resume <- struct{}{}
 	p.waitParked(before, first)
@@ -617,6 +633,10 @@ func (p *ecPipeRun) account(before int, first, blocked bool) {
 		if !p.th.done || blocked {
 			p.res.PipePartial++
 		}
+	} else if !blocked && len(p.w.onWriteReadyCh) == p.tokBefore {
+		// the syscall took nothing and no token was used: a writev whose remaining slices are all empty returned 0
+		p.pattern = append(p.pattern, "0")
+		p.trace = append(p.trace, `{"ev":"zero"}`)
 	} else {
 		p.res.PipeEagain++
 		if blocked {
@@ -710,6 +730,13 @@ func (p *ecPipeRun) startNext() {
 			total += l
 			slices = append(slices, sl)
 			p.sent = append(p.sent, sl...)
+		}
+		if total == 0 {
+			// (all slices came out empty: keep one byte so that the call is a message of the trace)
+			q := base
+			slices[len(slices)-1] = []byte{byte(q*131 + (q>>8)*31 + (q>>16)*7 + 1)}
+			p.sent = append(p.sent, slices[len(slices)-1]...)
+			total = 1
 		}
 		p.trace = append(p.trace, fmt.Sprintf(`{"ev":"msg","size":%d}`, total))
 		p.th = vsSpawn(1, func(t *vsThread) {
@@ -910,9 +937,12 @@ func (r *ecRecConn) writev(d ...[]byte) error {
 
 type ecNullCb struct{ remoteClosed int32 }
 
-func (c *ecNullCb) onEventData(buf []byte, conn eventConn) error { conn.commitRead(len(buf)); return nil }
-func (c *ecNullCb) onRemoteClose()                               { atomic.StoreInt32(&c.remoteClosed, 1) }
-func (c *ecNullCb) onLocalClose()                                {}
+func (c *ecNullCb) onEventData(buf []byte, conn eventConn) error {
+	conn.commitRead(len(buf))
+	return nil
+}
+func (c *ecNullCb) onRemoteClose() { atomic.StoreInt32(&c.remoteClosed, 1) }
+func (c *ecNullCb) onLocalClose()  {}
 
 type ecRecv struct {
 	mu        sync.Mutex
@@ -1643,7 +1673,9 @@ func ecSendLoopAsleep() bool {
 	return ecAsleepIn("(*Session).send(")
 }
 
-func ecWrBody(k int) []byte { return []byte{0, 0, 0, byte(k), 0xEE, 0xEE, 0xEE, 0xEE, 0xEE, 0xEE, 0xEE, 0xEE} }
+func ecWrBody(k int) []byte {
+	return []byte{0, 0, 0, byte(k), 0xEE, 0xEE, 0xEE, 0xEE, 0xEE, 0xEE, 0xEE, 0xEE}
+}
 
 type ecWrRun struct {
 	w       *ecWrWorld
@@ -1943,6 +1975,463 @@ func (r *ecWrRun) checkWire(want int) {
 	}
 }
 
+// ------------------------------------------------------------------------------------------------ dispatch replay
+// TLC behaviours of EventConnDispatch.tla staged on the REAL epoll dispatcher. The dispatcher goroutine is held in a task
+// posted with dispatcher.post(); every Harvest action of the behaviour lets it make exactly ONE epoll round (the next
+// holding task is posted before the current one is released), so what the kernel reports in that round is the coalesced
+// mask of everything the peer did meanwhile: IN+OUT while the writer is parked after EAGAIN, RDHUP+IN, ...
+
+const (
+	ecDOpBegin = 1
+	ecDOpWake  = 2
+	ecDOpDrain = 3
+	ecDOpSend  = 4
+	ecDOpClose = 5
+	ecDOpHarv  = 6
+)
+
+type ecDispSched struct {
+	Name  string  `json:"name"`
+	Fills int     `json:"fills"`
+	Init  int     `json:"init"`
+	Steps [][]int `json:"steps"` // [op, stateIndex]; state = [wpc(0 idle,1 wait,2 done), tok, delivered, closedSeen, drained, wakeEnabled, mask bits(IN 1, OUT 2, RDHUP 4)]
+}
+
+type ecGate struct {
+	entered chan struct{}
+	release chan struct{}
+}
+
+type ecKickCb struct{}
+
+func (k *ecKickCb) onEventData(buf []byte, conn eventConn) error {
+	conn.commitRead(len(buf))
+	return nil
+}
+func (k *ecKickCb) onRemoteClose() {}
+func (k *ecKickCb) onLocalClose()  {}
+
+var (
+	ecKickFd   = -1
+	ecHeld     *ecGate
+	ecSockCap  int
+	ecDispUnit = 64
+)
+
+// the kicker: a registered connection whose only purpose is to make epoll_wait return at once
+func ecKickInit() error {
+	if ecKickFd >= 0 {
+		return nil
+	}
+	ensureDefaultDispatcherInit()
+	a, b, err := ecSocketpair(unix.SOCK_STREAM)
+	if err != nil {
+		return err
+	}
+	kc := defaultDispatcher.newConnection(os.NewFile(uintptr(a), "ec-kick"))
+	if err := kc.setCallback(&ecKickCb{}); err != nil {
+		return err
+	}
+	ecKickFd = b
+	return nil
+}
+
+func ecKick() { unix.Write(ecKickFd, []byte{1}) }
+
+func ecPostGate() *ecGate {
+	g := &ecGate{entered: make(chan struct{}), release: make(chan struct{})}
+	defaultDispatcher.post(func() { close(g.entered); <-g.release })
+	return g
+}
+
+// hold the dispatcher goroutine (idempotent)
+func ecHold() bool {
+	if ecHeld != nil {
+		return true
+	}
+	g := ecPostGate()
+	ecKick()
+	select {
+	case <-g.entered:
+		ecHeld = g
+		return true
+	case <-time.After(5 * time.Second):
+		close(g.release)
+		return false
+	}
+}
+
+// exactly one epoll round: the next holding task is queued before the current one is released
+func ecRound() bool {
+	if ecHeld == nil {
+		return false
+	}
+	g := ecPostGate()
+	ecKick()
+	close(ecHeld.release)
+	select {
+	case <-g.entered:
+		ecHeld = g
+		return true
+	case <-time.After(5 * time.Second):
+		ecHeld = nil
+		close(g.release)
+		return false
+	}
+}
+
+func ecUnhold() {
+	if ecHeld != nil {
+		close(ecHeld.release)
+		ecHeld = nil
+	}
+}
+
+// bytes a fresh socket with the minimal send buffer accepts before EAGAIN
+func ecMeasureCap() int {
+	a, b, err := ecSocketpair(unix.SOCK_STREAM)
+	if err != nil {
+		return 0
+	}
+	defer unix.Close(a)
+	defer unix.Close(b)
+	ecSetBuf(a, unix.SO_SNDBUF, 1)
+	big := make([]byte, 1<<20)
+	n, _ := unix.Write(a, big)
+	if n < 0 {
+		n = 0
+	}
+	return n
+}
+
+type ecDispCb struct {
+	mu     sync.Mutex
+	got    []byte
+	calls  int
+	closed int
+}
+
+func (c *ecDispCb) onEventData(buf []byte, conn eventConn) error {
+	c.mu.Lock()
+	c.got = append(c.got, buf...)
+	c.calls++
+	c.mu.Unlock()
+	conn.commitRead(len(buf))
+	return nil
+}
+func (c *ecDispCb) onRemoteClose() { c.mu.Lock(); c.closed++; c.mu.Unlock() }
+func (c *ecDispCb) onLocalClose()  {}
+
+type ecDispRun struct {
+	sc       *ecDispSched
+	job      *ecJob
+	res      *ecResult
+	h        *connEventHandler
+	cb       *ecDispCb
+	peer     int
+	peerOpen bool
+	msg      []byte
+	inbound  []byte
+	drained  []byte
+	ndrains  int
+	began    bool
+	wdone    chan struct{}
+	werr     error
+	viol     *ecViolation
+	drift    string
+	pos      int
+}
+
+func (r *ecDispRun) fail(kind, detail string) {
+	if r.viol == nil {
+		r.viol = &ecViolation{Kind: kind, Part: "dispatch", Name: r.sc.Name, Detail: detail,
+			Replay: map[string]interface{}{"part": "dispatch", "sched": r.sc, "dstates": r.job.DStates}}
+	}
+}
+
+func (r *ecDispRun) writerDone() bool {
+	if r.wdone == nil {
+		return false
+	}
+	select {
+	case <-r.wdone:
+		return true
+	default:
+		return false
+	}
+}
+
+// 0 idle, 1 parked in `<-onWriteReadyCh`, 2 returned; -1 running
+func (r *ecDispRun) wstate() int {
+	if !r.began {
+		return 0
+	}
+	if r.writerDone() {
+		return 2
+	}
+	if ecAsleepIn("connEventHandler).write(") {
+		return 1
+	}
+	return -1
+}
+
+// wait until the writer has consumed a pending token (if it is parked) and is parked again or has returned
+func (r *ecDispRun) settle() int {
+	deadline := time.Now().Add(10 * time.Second)
+	for {
+		st := r.wstate()
+		if st == 0 || st == 2 {
+			return st
+		}
+		if st == 1 && len(r.h.onWriteReadyCh) == 0 {
+			return 1
+		}
+		if time.Now().After(deadline) {
+			return st
+		}
+		time.Sleep(50 * time.Microsecond)
+	}
+}
+
+func (r *ecDispRun) begin() {
+	r.began = true
+	r.wdone = make(chan struct{})
+	go func() {
+		defer close(r.wdone)
+		defer func() {
+			if x := recover(); x != nil {
+				r.werr = fmt.Errorf("panic: %v", x)
+			}
+		}()
+		r.werr = r.h.write(r.msg)
+	}()
+}
+
+func (r *ecDispRun) drainPeer() int {
+	buf := make([]byte, 1<<16)
+	total := 0
+	for {
+		n, err := unix.Read(r.peer, buf)
+		if n > 0 {
+			r.drained = append(r.drained, buf[:n]...)
+			total += n
+			continue
+		}
+		_ = err
+		return total
+	}
+}
+
+func (r *ecDispRun) realState() []int {
+	r.cb.mu.Lock()
+	del, cl := len(r.cb.got)/ecDispUnit, r.cb.closed
+	r.cb.mu.Unlock()
+	if cl > 1 {
+		cl = 1
+	}
+	return []int{r.wstate(), len(r.h.onWriteReadyCh), del, cl, r.ndrains}
+}
+
+func (r *ecDispRun) compare(st []int) {
+	if r.drift != "" || st == nil || st[5] == 1 {
+		return
+	}
+	re := r.realState()
+	ok := re[2] == st[2] && re[3] == st[3] && re[4] == st[4]
+	if st[3] == 0 { // after the close the writer returns EPIPE and the token channel is closed: not compared
+		ok = ok && re[0] == st[0] && re[1] == st[1]
+	}
+	if !ok {
+		r.drift = fmt.Sprintf("%s step %d: real writer/token/delivered/closed/drains = %v, spec %v", r.sc.Name, r.pos, re, st[:5])
+	}
+}
+
+func ecRunDispatch(job *ecJob, sc *ecDispSched, res *ecResult) {
+	r := &ecDispRun{sc: sc, job: job, res: res, cb: &ecDispCb{}}
+	defer func() {
+		res.DispReplayed++
+		res.DispSteps += len(sc.Steps)
+		if r.viol != nil {
+			res.Violations = append(res.Violations, *r.viol)
+		} else if r.drift != "" {
+			if len(res.Drift) < 10 {
+				res.Drift = append(res.Drift, r.drift)
+			}
+		} else {
+			res.DispConform++
+		}
+	}()
+	if err := ecKickInit(); err != nil {
+		res.Notes = append(res.Notes, "dispatch: kicker: "+err.Error())
+		r.drift = "harness: no kicker"
+		return
+	}
+	if ecSockCap == 0 {
+		ecSockCap = ecMeasureCap()
+	}
+	if ecSockCap <= 0 || !ecHold() {
+		res.Notes = append(res.Notes, "dispatch: cannot hold the dispatcher goroutine / measure the socket capacity")
+		r.drift = "harness: dispatcher not held"
+		return
+	}
+	a, b, err := ecSocketpair(unix.SOCK_STREAM)
+	if err != nil {
+		r.drift = "harness: socketpair"
+		return
+	}
+	ecSetBuf(a, unix.SO_SNDBUF, 1)
+	r.peer, r.peerOpen = b, true
+	// the message fills the send buffer sc.Fills times, then a tail that fits
+	r.msg = ecStream(sc.Fills*ecSockCap + ecSockCap/2)
+	r.h = defaultDispatcher.newConnection(os.NewFile(uintptr(a), "ec-disp")).(*connEventHandler)
+	if err := r.h.setCallback(r.cb); err != nil { // registered while the dispatcher is held: the initial OUT edge is pending
+		r.drift = "harness: setCallback " + err.Error()
+		return
+	}
+	defer func() {
+		// end of the run: close our end (wakes a parked writer with EPIPE), wait for the writer
+		if r.peerOpen {
+			unix.Close(r.peer)
+			r.peerOpen = false
+		}
+		r.h.close()
+		if r.began {
+			select {
+			case <-r.wdone:
+			case <-time.After(5 * time.Second):
+				r.fail("stuck", "writer did not return after close()")
+			}
+		}
+	}()
+
+	for r.pos = 0; r.pos < len(sc.Steps) && r.viol == nil; r.pos++ {
+		op := sc.Steps[r.pos][0]
+		var dst []int
+		if i := sc.Steps[r.pos][1]; i >= 0 && i < len(job.DStates) {
+			dst = job.DStates[i]
+		}
+		switch op {
+		case ecDOpBegin:
+			if r.began {
+				continue
+			}
+			r.begin()
+			r.settle()
+		case ecDOpWake:
+			// the real writer has taken the token by itself; wait until it is parked again or has returned
+			res.DispWakes++
+			r.settle()
+		case ecDOpDrain:
+			if r.peerOpen {
+				r.drainPeer()
+				r.ndrains++
+			}
+		case ecDOpSend:
+			if r.peerOpen {
+				off := len(r.inbound)
+				unit := make([]byte, ecDispUnit)
+				for i := range unit {
+					unit[i] = byte((off+i)*29 + 5)
+				}
+				unix.Write(r.peer, unit)
+				r.inbound = append(r.inbound, unit...)
+			}
+		case ecDOpClose:
+			if r.peerOpen {
+				unix.Close(r.peer)
+				r.peerOpen = false
+			}
+		case ecDOpHarv:
+			parked := r.wstate() == 1
+			if !ecRound() {
+				r.fail("stuck", "the dispatcher goroutine did not complete an epoll round within 5s")
+				return
+			}
+			res.DispRounds++
+			if dst != nil {
+				if dst[6]&3 == 3 && dst[6]&4 == 0 && parked {
+					res.DispInOut++
+				}
+				if dst[6]&5 == 5 {
+					res.DispRdhupIn++
+				}
+			}
+			r.settle()
+		default:
+			continue
+		}
+		r.compare(dst)
+	}
+	if r.viol != nil {
+		return
+	}
+	r.cb.mu.Lock()
+	closed := r.cb.closed > 0
+	r.cb.mu.Unlock()
+	if closed || !r.peerOpen {
+		// the connection was closed by the peer: what was still in the socket is not offered (observation, not C18)
+		r.cb.mu.Lock()
+		res.DispLost += len(r.inbound) - len(r.cb.got)
+		if !bytes.Equal(r.cb.got, r.inbound[:len(r.cb.got)]) {
+			r.fail("callback-argument", "bytes offered before the close differ from what the peer sent")
+		}
+		r.cb.mu.Unlock()
+		return
+	}
+	// ---- epilogue + oracle: the peer keeps reading; the blocked write must complete and every byte must arrive
+	if !r.began {
+		r.begin()
+		r.settle()
+	}
+	for i := 0; i < sc.Fills+4 && !r.writerDone(); i++ {
+		r.drainPeer()
+		if !ecRound() {
+			r.fail("stuck", "the dispatcher goroutine did not complete an epoll round within 5s")
+			return
+		}
+		res.DispRounds++
+		r.settle()
+	}
+	if !r.writerDone() {
+		// generous bound: let the dispatcher run freely (its idle epoll timeout is 1 s), the peer keeps draining
+		ecUnhold()
+		deadline := time.Now().Add(4 * time.Second)
+		for !r.writerDone() && time.Now().Before(deadline) {
+			r.drainPeer()
+			time.Sleep(2 * time.Millisecond)
+		}
+		still := r.wstate()
+		ecHold()
+		if !r.writerDone() {
+			if still == 1 && ecInq(r.peer) == 0 {
+				r.fail("stranded-writer", fmt.Sprintf("write of %d bytes ran into EAGAIN and parked on onWriteReadyCh; the peer has read everything (%d bytes, socket empty), the dispatcher made %d more epoll rounds and then ran freely for 4s: the writer is still parked (token channel empty=%v) - the write-ready notification of an epoll event was dropped, %d bytes never reach the peer",
+					len(r.msg), len(r.drained), sc.Fills+4, len(r.h.onWriteReadyCh) == 0, len(r.msg)-len(r.drained)))
+			} else {
+				r.fail("stuck", fmt.Sprintf("write did not return (writer state %d, peer has %d of %d bytes)", still, len(r.drained), len(r.msg)))
+			}
+			return
+		}
+	}
+	if r.werr != nil {
+		r.fail("write-error", "write returned "+r.werr.Error())
+		return
+	}
+	r.drainPeer()
+	if !bytes.Equal(r.drained, r.msg) {
+		d := ecFirstDiff(r.drained, r.msg)
+		r.fail("stream", fmt.Sprintf("write returned nil: %d bytes written, the peer read %d, first difference at %d", len(r.msg), len(r.drained), d))
+		return
+	}
+	// inbound: one more round so that anything sent last is read
+	ecRound()
+	res.DispRounds++
+	r.cb.mu.Lock()
+	defer r.cb.mu.Unlock()
+	if !bytes.Equal(r.cb.got, r.inbound) {
+		r.fail("not-offered", fmt.Sprintf("the peer sent %d bytes, the callback was offered %d", len(r.inbound), len(r.cb.got)))
+	}
+}
+
 // ------------------------------------------------------------------------------------------------ test entry
 
 func TestVS_EventConn(t *testing.T) {
@@ -2031,6 +2520,17 @@ func TestVS_EventConn(t *testing.T) {
 		ecRunWriters(&job, &job.Writers[i], res)
 	}
 	lap("writers")
+	for i := range job.Dispatch {
+		if stop() || len(res.Violations) >= 5 {
+			break
+		}
+		if i%20 == 0 {
+			ecProgress("dispatch", i, job.Dispatch[i].Name)
+		}
+		ecRunDispatch(&job, &job.Dispatch[i], res)
+	}
+	ecUnhold()
+	lap("dispatch")
 	for i := range job.E2E {
 		if stop() || len(res.Violations) >= 5 {
 			break
